@@ -75,6 +75,14 @@ let run_line (line : string) : string =
          match raw_server p (n_of_dec r) (bytes_of_hex rawhex) with
          | None -> "NONE"
          | Some rr -> hex_of_bytes rr)
+  | "PW" :: envtok :: stdinhex :: ps ->
+      (* main(): the 33-byte password buffer from the -P arguments (in order), the environment variable ("U" = unset) and
+         what the prompt reads from standard input *)
+      let env = if envtok = "U" then None else Some (bytes_of_hex envtok) in
+      hex_of_bytes (startup_password (Stdlib.List.map bytes_of_hex ps) env (bytes_of_hex stdinhex))
+  | "ML" :: ms ->
+      (* main() of iodine: the hostname-length limit from the -M arguments (in order) *)
+      string_of_int (int_of_z (startup_maxlen (Stdlib.List.map (fun m -> z_of_int (int_of_string m)) ms)))
   | [ "SN"; vhex; _ ] ->
       (* iodined.c 'V' branch on a version message that is not the server's version *)
       if srv_version_matches (bytes_of_hex vhex) then "VERSION-MATCHES"
